@@ -43,14 +43,28 @@ func cmdVerify(args []string) int {
 	repo := fs.String("repo", "/repo", "repository root")
 	funcs := fs.String("f", "", "comma-separated function keys or prefixes (default: all contracts)")
 	exact := fs.Bool("x", false, "match -f keys exactly (no prefix matching)")
+	allImpl := fs.Bool("all", false, "without -f: also verify implementations of interface methods that have no own annotation block")
 	verbose := fs.Bool("v", false, "verbose")
 	unroll := fs.Int("unroll", 2, "unrolling bound for loops without invariants")
 	budget := fs.Float64("t", 10, "per-query budget (s)")
 	smoke := fs.Bool("smoke", false, "emit vacuity smoke obligations")
 	dump := fs.String("dump", "", "dump queries into this directory")
-	jobs := fs.Int("j", 16, "parallel solver jobs")
+	jobs := fs.Int("j", 0, "parallel solver jobs (default: 16, fewer when the machine is loaded)")
 	jsonOut := fs.String("json", "", "write per-obligation results to this file")
 	fs.Parse(args)
+	if *jobs <= 0 {
+		*jobs = 16
+		if data, err := os.ReadFile("/proc/loadavg"); err == nil {
+			var l1 float64
+			fmt.Sscanf(string(data), "%f", &l1)
+			if l1 > 12 {
+				*jobs = 16 - int(l1-12)/2
+				if *jobs < 3 {
+					*jobs = 3
+				}
+			}
+		}
+	}
 	prog, err := loadProgram(*repo)
 	if err != nil {
 		fmt.Fprintln(os.Stderr, "load:", err)
@@ -68,7 +82,7 @@ func cmdVerify(args []string) int {
 		}
 	}
 	for k := range prog.implContracts {
-		if *funcs == "" && prog.Contracts[k] == nil {
+		if *funcs == "" && prog.Contracts[k] == nil && !*allImpl {
 			continue // unannotated implementations are verified on request only
 		}
 		if *funcs != "" {
